@@ -4,6 +4,7 @@
 From Coq Require Import List NArith Arith Bool.
 Import ListNotations.
 From RH Require Import Text.Contents Text.Splice Text.ContentsProofs.
+From RH Require Import Text.RawClient Text.RawClientProofs.
 Open Scope N_scope.
 
 (* The line buffer produced by `Contents::from_str` is canonical. *)
@@ -82,3 +83,134 @@ Print Assumptions C10_history_refines.
 Print Assumptions C10_history_never_crashes.
 Print Assumptions C10_change_old_refuted.
 Print Assumptions C10_change_old_crashes.
+
+(* ------------------------------------------------------------------------------------ *)
+(* The reference is the CLIENT'S OWN RAW TEXT (Text/RawClient.v): lines end at LF, CRLF *)
+(* or lone CR, positions are resolved on the raw string, nothing is normalised; proofs   *)
+(* in Text/RawClientProofs.v.                                                            *)
+(* ------------------------------------------------------------------------------------ *)
+
+(* Normalisation does not change the number of lines. *)
+Theorem C10_raw_lines_normalize : forall r, raw_lines (normalize r) = raw_lines r.
+Proof. exact raw_lines_normalize. Qed.
+
+(* A position denotes, in the server's normalised text, the image under normalisation of
+   the offset it denotes in the client's raw text ... *)
+Theorem C10_offset_normalize : forall r p,
+  offset_of (normalize r) p = length (normalize (firstn (raw_offset p r) r)).
+Proof. exact offset_normalize. Qed.
+
+(* ... cutting the raw text there commutes with normalisation ... *)
+Theorem C10_raw_offset_cut : forall r p,
+  normalize r = normalize (firstn (raw_offset p r) r) ++ normalize (skipn (raw_offset p r) r).
+Proof. exact raw_offset_cut. Qed.
+
+(* ... because no position denotes the offset between the CR and the LF of a CRLF. *)
+Theorem C10_raw_offset_never_splits_crlf : forall r p,
+  ends_cr (firstn (raw_offset p r) r) && starts_lf (skipn (raw_offset p r) r) = false.
+Proof. exact raw_offset_never_splits_crlf. Qed.
+
+(* One ranged change on the client's raw text, any two positions: the normalisation of the
+   client's new text is the reference step of C10_history_refines, provided the splice
+   neither fuses a kept lone CR with a following LF in the client's text (`fuse_client`)
+   nor lets a final CR of the replacement meet a kept CR-initial terminator, which the
+   server has stored as LF (`fuse_server`). *)
+Theorem C10_raw_step : forall r st en t, no_cr_lf_fusion r st en t = true ->
+  normalize (raw_change r st en t) = spec_change (normalize r) st en t.
+Proof. exact raw_step. Qed.
+
+(* The side condition is necessary.  Client text "a\rb", insert "\n" at (1,0): the client
+   has "a\r\nb" (2 lines), the server's text is "a\n\nb" (3 lines). *)
+Theorem C10_raw_step_refuted :
+  exists r st en t,
+    no_cr_lf_fusion r st en t = false /\
+    raw_change r st en t = [97; CR; LF; 98] /\
+    raw_lines (raw_change r st en t) = 2%nat /\
+    spec_change (normalize r) st en t = [97; LF; LF; 98] /\
+    raw_lines (spec_change (normalize r) st en t) = 3%nat /\
+    normalize (raw_change r st en t) <> spec_change (normalize r) st en t /\
+    change (split_lines r) st en t = Some [[97; LF]; [LF]; [98]].
+Proof. exact raw_step_refuted. Qed.
+
+(* The other corner: client "a\rb", insert "\r" at (0,1): client 3 lines, server 2. *)
+Theorem C10_raw_step_refuted_server_fusion :
+  exists r st en t,
+    no_cr_lf_fusion r st en t = false /\
+    raw_lines (raw_change r st en t) = 3%nat /\
+    raw_lines (spec_change (normalize r) st en t) = 2%nat /\
+    change (split_lines r) st en t = Some [[97; LF]; [98]].
+Proof. exact raw_step_refuted_server_fusion. Qed.
+
+(* In general: whenever exactly one of the two fusions happens the two texts differ (in
+   length).  (When both happen at once, t = LF ... CR between a kept CR and a kept CR, they
+   may or may not coincide.) *)
+Theorem C10_raw_step_side_condition_needed : forall r st en t,
+  xorb (fuse_client r (raw_offset st r) (raw_offset en r) t)
+       (fuse_server r (raw_offset en r) t) = true ->
+  length (normalize (raw_change r st en t)) <> length (spec_change (normalize r) st en t).
+Proof. exact raw_step_side_condition_needed. Qed.
+
+(* Non-vacuity of C10_raw_step: CRLF document with a supplementary-plane character,
+   column inside the surrogate pair rounding up, multi-line CRLF replacement. *)
+Example C10_raw_step_satisfiable :
+  let r := [97; 128512; CR; LF; 98; CR; LF; 99] in
+  let t := [120; CR; LF; 121] in
+  no_cr_lf_fusion r (P 0 3) (P 2 0) t = true /\
+  raw_offset (P 0 3) r = 2%nat /\ raw_offset (P 0 2) r = 2%nat /\ raw_offset (P 2 0) r = 7%nat /\
+  raw_change r (P 0 3) (P 2 0) t = [97; 128512; 120; CR; LF; 121; 99] /\
+  raw_lines r = 3%nat /\
+  change (split_lines r) (P 0 3) (P 2 0) t = Some [[97; 128512; 120; LF]; [121; 99]].
+Proof. exact raw_step_satisfiable. Qed.
+
+(* Any raw initial text, any finite history of well-formed full and ranged changes each of
+   which satisfies the side condition w.r.t. the client's current raw text: the server's
+   text is the normalisation of the client's raw text after the same changes. *)
+Theorem C10_raw_history : forall es r0,
+  forallb wf_edit es = true -> raw_history_ok r0 es = true ->
+  exists d, apply_edits (split_lines r0) es = Some d
+            /\ concat d = normalize (raw_edits r0 es)
+            /\ canonical d.
+Proof. exact raw_history. Qed.
+
+Example C10_raw_history_satisfiable :
+  let r0 := [97; 128512; CR; LF; 98; CR; 99; LF] in
+  let es := [Ranged (P 0 3) (P 2 0) [120; CR; LF; 121];
+             Ranged (P 1 1) (P 9 9) [CR; 122];
+             Full [CR; LF; 97; CR];
+             Ranged (P 1 1) (P 1 1) [LF]] in
+  forallb wf_edit es = true /\ raw_history_ok r0 es = true /\
+  raw_edits r0 es = [CR; LF; 97; LF; CR] /\
+  apply_edits (split_lines r0) es = Some [[LF]; [97; LF]; [LF]].
+Proof. exact raw_history_satisfiable. Qed.
+
+(* Contents::end is the (line, UTF-16 length) of the last line of the text, a final LF
+   belonging to that last line. *)
+Theorem C10_doc_end_spec : forall d, canonical d -> doc_end d = str_end 0 0 (concat d).
+Proof. exact doc_end_spec. Qed.
+
+(* A didChange batch applied change by change = the fold over the concatenated lists. *)
+Theorem C10_batch_is_fold : forall es1 es2 d,
+  apply_edits d (es1 ++ es2) = obind (apply_edits d es1) (fun d' => apply_edits d' es2).
+Proof. exact batch_is_fold. Qed.
+
+Check C10_offset_normalize : forall r p,
+  offset_of (normalize r) p = length (normalize (firstn (raw_offset p r) r)).
+Check C10_raw_step : forall r st en t, no_cr_lf_fusion r st en t = true ->
+  normalize (raw_change r st en t) = spec_change (normalize r) st en t.
+Check C10_raw_history : forall es r0,
+  forallb wf_edit es = true -> raw_history_ok r0 es = true ->
+  exists d, apply_edits (split_lines r0) es = Some d
+            /\ concat d = normalize (raw_edits r0 es) /\ canonical d.
+Check C10_doc_end_spec : forall d, canonical d -> doc_end d = str_end 0 0 (concat d).
+
+Print Assumptions C10_raw_lines_normalize.
+Print Assumptions C10_offset_normalize.
+Print Assumptions C10_raw_offset_cut.
+Print Assumptions C10_raw_offset_never_splits_crlf.
+Print Assumptions C10_raw_step.
+Print Assumptions C10_raw_step_refuted.
+Print Assumptions C10_raw_step_refuted_server_fusion.
+Print Assumptions C10_raw_step_side_condition_needed.
+Print Assumptions C10_raw_history.
+Print Assumptions C10_doc_end_spec.
+Print Assumptions C10_batch_is_fold.
